@@ -101,6 +101,9 @@ package rtpdump
 //@ ensures err == nil ==> ghost(rdpos) >= old(ghost(rdpos)) + 8
 //@ ensures old(ghost(rdpos)) + 8 <= uint64(ufint("streamlen")) && (uint16(ufbyte("stream", int(old(ghost(rdpos)))))<<8 | uint16(ufbyte("stream", int(old(ghost(rdpos)))+1))) < 8 ==> err != nil
 //@ ensures err == nil ==> ghost(rdpos) == old(ghost(rdpos)) + uint64(uint16(ufbyte("stream", int(old(ghost(rdpos)))))<<8 | uint16(ufbyte("stream", int(old(ghost(rdpos)))+1)))
+// the payload handed out is the caller's own: a fresh slice, not memory the reader keeps and
+// overwrites on a later call
+//@ ensures err == nil ==> fresh(ret0.Payload)
 //@ ensures err == nil ==> len(ret0.Payload) + 8 == int(uint16(ufbyte("stream", int(old(ghost(rdpos)))))<<8 | uint16(ufbyte("stream", int(old(ghost(rdpos)))+1)))
 //@ ensures err == nil ==> (forall i int :: 0 <= i && i < len(ret0.Payload) ==> ret0.Payload[i] == ufbyte("stream", int(old(ghost(rdpos))) + 8 + i))
 //@ ensures err == nil ==> ret0.IsRTCP == (ufbyte("stream", int(old(ghost(rdpos)))+2) == 0 && ufbyte("stream", int(old(ghost(rdpos)))+3) == 0)
